@@ -87,4 +87,10 @@ CHECKS = {
         "assumptions": ["replies on one socket pair are FIFO (same 4-tuple => same SO_REUSEPORT socket => same goroutine)", "loopback may drop datagrams under memory pressure: a sentinel is retried 6 times before the listener is declared unresponsive"],
         "timeout_quick": 600, "timeout_thorough": 2400,
     },
+    "C20": {
+        "pkg": "c20", "shards": 8,
+        "rule": "rapid state machine of FetchData calls on the real fetcher against a scripted TLS key-exchange server; truncation sweep.",
+        "assumptions": ["TLS 1.3 with a run-time self-signed certificate and InsecureSkipVerify (certificate validation is configuration of the callers)", "AEAD records carry one algorithm id; warning records are not judged (a client may treat them as errors)", "QUIC/SCION transport of the key exchange is not exercised"],
+        "timeout_quick": 600, "timeout_thorough": 2400,
+    },
 }
